@@ -1,6 +1,7 @@
 CONSTANTS
   V = {"skip_last"}
   MaxN = 3
+  Vary = FALSE
 SPECIFICATION Spec
 INVARIANTS TypeOK HooksCalled
 CHECK_DEADLOCK FALSE
